@@ -57,13 +57,18 @@ func plans() map[string]Plan {
 		Thorough: []Job{{Name: "accepted-outputs", Engine: "e4"}, {Name: "token-soup-and-mutations", Engine: "e6", Inst: true, Args: []string{"-job", "inst"}}},
 		QuickCap: 300, ThoroughCap: 3000,
 		Assumptions: append([]string{"the ICWS'88 legality table is ref.Legal88 (written from the standard; SLT with immediate B allowed as the suite documents)"}, baseAssumptions...)}
-	for _, id := range []string{"C09", "C10", "C16"} {
+	for _, id := range []string{"C09", "C10"} {
 		p[id] = Plan{Prop: id,
 			Quick:    []Job{{Name: "load-files", Engine: "e5"}},
 			Thorough: []Job{{Name: "load-files", Engine: "e5"}},
 			QuickCap: 300, ThoroughCap: 3000,
 			Assumptions: append([]string{"canonical printer, line classifier and listing reader are ref/load.go (independent of gmars)"}, baseAssumptions...)}
 	}
+	p["C16"] = Plan{Prop: "C16",
+		Quick:    []Job{{Name: "load-files", Engine: "e5"}, {Name: "cli-listing", Engine: "e8", CLI: true, Args: []string{"-job", "listing"}}},
+		Thorough: []Job{{Name: "load-files", Engine: "e5"}, {Name: "cli-listing", Engine: "e8", CLI: true, Args: []string{"-job", "listing"}}},
+		QuickCap: 300, ThoroughCap: 3000,
+		Assumptions: append([]string{"canonical printer, line classifier and listing reader are ref/load.go (independent of gmars)", "the -A path is driven through the freshly built cmd/gmars on generated source files whose meaning is known by construction"}, baseAssumptions...)}
 	p["C13"] = Plan{Prop: "C13",
 		Quick:    []Job{{Name: "api-bfs", Engine: "e3", Shards: 9}},
 		Thorough: []Job{{Name: "api-bfs", Engine: "e3"}},
